@@ -10,13 +10,14 @@ import z3
 
 from .sym import (SInt, SBool, SStr, SFloat, SOpt, PList, SList, PDict, PObj, SRef, Unsupported, Restart, lift, wrap,
                   is_intlike, as_int_term, Func, Builtin, ClassRef)
+from .bytemem import ByteMem
 
 
 def clone_state(root):
     memo = {}
 
     def cl(v):
-        if isinstance(v, (PList, PDict, PObj, SList)) or (isinstance(v, dict)):
+        if isinstance(v, (PList, PDict, PObj, SList, ByteMem)) or (isinstance(v, dict)):
             k = id(v)
             if k in memo:
                 return memo[k][1]
@@ -34,6 +35,10 @@ def clone_state(root):
                 n.fields = {kk: cl(x) for kk, x in v.fields.items()}
             elif isinstance(v, SList):
                 n = SList(v.ln, v.at, v.ekind)
+                memo[k] = (v, n)
+            elif isinstance(v, ByteMem):
+                n = ByteMem(v.ln, v.b8, v.w32, v.f64, v.d128)
+                n.known32 = dict(v.known32)
                 memo[k] = (v, n)
             else:
                 n = {}
@@ -56,6 +61,16 @@ def merge_into(ex, c, st1, st2_roots, env):
     def mv(a, b, where):
         # a: then-value, b: else-value (live)
         if a is b:
+            return b
+        if isinstance(b, ByteMem) and isinstance(a, ByteMem):
+            if id(b) in seen:
+                return b
+            seen.add(id(b))
+            b.ln = ite_int(c, a.ln, b.ln)
+            for fld in ("b8", "w32", "f64", "d128"):
+                x, y = getattr(a, fld), getattr(b, fld)
+                setattr(b, fld, y if x.eq(y) else z3.If(c, x, y))
+            b.known32 = {o: t for o, t in b.known32.items() if o in a.known32 and a.known32[o].eq(t)}
             return b
         if isinstance(b, (PList, PDict, PObj, SList)) or isinstance(a, (PList, PDict, PObj, SList)):
             if type(a) is not type(b):
@@ -122,6 +137,14 @@ def _abort(where):
 
 
 def ite_int(c, x, y):
+    from .sym import bits_of, mk_bits
+    if x.eq(y):
+        return x
+    dx, dy = bits_of(x), bits_of(y)
+    from .sym import BITS
+    if dx is not None and dy is not None and (x.get_id() in BITS or y.get_id() in BITS or _flagish(x, y)):
+        F = z3.BoolVal(False)
+        return mk_bits({k: z3.If(c, dx.get(k, F), dy.get(k, F)) for k in set(dx) | set(dy)})
     x, y = z3.simplify(x), z3.simplify(y)
     if x.eq(y):
         return x
@@ -130,6 +153,15 @@ def ite_int(c, x, y):
     if z3.is_int_value(d):
         return z3.simplify(y + z3.If(c, d, z3.IntVal(0)))
     return z3.If(c, x, y)
+
+
+def _flagish(x, y):
+    """two concrete ints that differ in exactly one bit (x == y | bit): the `flags |= m` idiom"""
+    if z3.is_int_value(x) and z3.is_int_value(y):
+        a, b = x.as_long(), y.as_long()
+        # exact either way (the bit form denotes ite(c, x, y)); chosen when one value's bits contain the other's
+        return a >= 0 and b >= 0 and a != b and (a | b) in (a, b)
+    return False
 
 
 def merge_scalar(c, a, b, where):
